@@ -64,6 +64,7 @@ StepClass(r, i, s, w, prevNT, dob, dfx, grid) ==
         dragged == \/ Has(s, "cond_after_copy") /\ s.cond_after_copy # s.cond
                    \/ Has(s, "copy_cond") /\ s.copy_cond # s.cond
                    \/ Has(s, "copy_later") /\ s.copy_later # s.cond
+                   \/ Has(s, "twin_later") /\ Has(s, "twin_cond") /\ s.twin_later # s.twin_cond
     IN IF unmapped THEN "unmappable"
        ELSE IF dragged THEN "copy-not-independent"
        ELSE IF ~holds THEN
